@@ -1,6 +1,7 @@
 package main
 
 import (
+	"encoding/json"
 	"os"
 	"path/filepath"
 	"regexp"
@@ -155,16 +156,29 @@ func summariseRaceLogs(workDir string, nCases int) map[string]interface{} {
 		}
 		return out
 	}
+	// pairs that the committed baseline (collected on the unchanged tree,
+	// scripts/race_baseline.sh) does not list: still information only, but it
+	// tells a reader at once which races a change to Babble added
+	notInBaseline := []string{}
+	if base := loadRaceBaseline(); base != nil {
+		for k := range innerPairs {
+			if !base[k] {
+				notInBaseline = append(notInBaseline, k)
+			}
+		}
+		sort.Strings(notInBaseline)
+	}
 	return map[string]interface{}{
-		"cases_run_under_race_detector":      nCases,
-		"reports_total":                      total,
-		"distinct_access_pairs_babble":       len(innerPairs),
-		"distinct_entry_point_pairs_babble":  len(entryPairs),
-		"distinct_access_pairs_harness_only": len(harnessPairs),
-		"access_pairs_babble":                top(innerPairs, 40),
-		"entry_point_pairs_babble":           top(entryPairs, 25),
-		"access_pairs_harness_only":          top(harnessPairs, 10),
-		"note":                               "informational: data-race freedom is not one of the properties and the unchanged tree races; the verdict of a case run under the race detector comes from its behavioural monitors",
+		"access_pairs_not_in_committed_baseline": notInBaseline,
+		"cases_run_under_race_detector":          nCases,
+		"reports_total":                          total,
+		"distinct_access_pairs_babble":           len(innerPairs),
+		"distinct_entry_point_pairs_babble":      len(entryPairs),
+		"distinct_access_pairs_harness_only":     len(harnessPairs),
+		"access_pairs_babble":                    top(innerPairs, 40),
+		"entry_point_pairs_babble":               top(entryPairs, 25),
+		"access_pairs_harness_only":              top(harnessPairs, 10),
+		"note":                                   "informational: data-race freedom is not one of the properties and the unchanged tree races; the verdict of a case run under the race detector comes from its behavioural monitors",
 	}
 }
 
@@ -188,3 +202,21 @@ func itoa(v int) string {
 }
 
 var _ = raceFrameRe
+
+func loadRaceBaseline() map[string]bool {
+	b, err := os.ReadFile(filepath.Join(verifDir(), "race_baseline.json"))
+	if err != nil {
+		return nil
+	}
+	var doc struct {
+		Pairs []string `json:"pairs"`
+	}
+	if json.Unmarshal(b, &doc) != nil {
+		return nil
+	}
+	m := map[string]bool{}
+	for _, p := range doc.Pairs {
+		m[p] = true
+	}
+	return m
+}
